@@ -352,7 +352,7 @@ pub fn connection_start(r: &mut Rng, o: &Opts) -> (Vec<u8>, Structure) {
             list.push(("accept".into(), "*/*".into()));
         }
         if r.chance(1, 2) {
-            list.push(("accept-language".into(), r.pick(&["en-US,en;q=0.9", "de;q=0.8", "fr"]).to_string()));
+            list.push(("accept-language".into(), super::http1::accept_language(r)));
         }
         if r.chance(1, 3) {
             list.push(("cookie".into(), format!("sid={}", token(r, 8))));
